@@ -285,8 +285,45 @@ def payload_shape(d):
 # ---------------------------------------------------------------------------
 # C11
 # ---------------------------------------------------------------------------
+def map_key_scan(chk, program):
+    """syntax-level who-writes/reads scan of the source map (independent of sym.py, so it also sees loops): every subscript,
+    get/pop/setdefault and del uses the source-address parameter of the enclosing function as key; nothing iterates over the map"""
+    m = program.mod('decoder')
+    role = {'_decode': 3, '_call_decode_function': 3, '_decode_fast_message': 3}       # index of the source parameter incl. self
+    n = 0
+    for q, fn in m.defs.items():
+        if not q.startswith(CLS + '.'):
+            continue
+        short = q.split('.', 1)[1]
+        params = [a.arg for a in fn.args.args]
+        srcp = params[role[short]] if short in role and len(params) > role[short] else None
+        for node in ast.walk(fn):
+            if not (isinstance(node, ast.Attribute) and node.attr == 'source_to_iso_name' and isinstance(node.value, ast.Name) and node.value.id == 'self'):
+                continue
+            par = getattr(node, '_parent', None)
+            if short == '__init__' and isinstance(node.ctx, ast.Store):
+                continue
+            n += 1
+            key = None; how = None
+            if isinstance(par, ast.Subscript) and par.value is node:
+                key = par.slice; how = {'Load': 'read', 'Store': 'write', 'Del': 'delete'}[type(par.ctx).__name__]
+            elif isinstance(par, ast.Attribute) and par.value is node and isinstance(getattr(par, '_parent', None), ast.Call) and par._parent.func is par:
+                how = par.attr
+                if par.attr in ('get', 'pop', 'setdefault') and par._parent.args:
+                    key = par._parent.args[0]
+            inst = f"{short}::{how}::{ast.unparse(key) if key is not None else ast.unparse(par)[:40]}"
+            if key is None:
+                chk.violation('MAP-KEY', inst, file=DEC, line=node.lineno, func=short, expected='the source map is only indexed by a source address', found=ast.unparse(par)[:80],
+                              detail='iterating / bulk-editing the map lets a claim from one address change another address\'s identity')
+                continue
+            ok = isinstance(key, ast.Name) and key.id == srcp
+            chk.check(ok, 'MAP-KEY', inst, file=DEC, line=node.lineno, func=short, expected=f"key = the source-address parameter ({srcp})", found=ast.unparse(key),
+                      detail='' if ok else 'an entry of another address is read / written / deleted')
+    chk.floor('source_map_sites', n, 3)
+
 def map_rules(chk, program):
     consts = F.module_consts(program)
+    map_key_scan(chk, program)
     stages = {q: F.stage_events(program, q) for q in ('_decode', '_call_decode_function')}
     ffn, fex = F.stage_events(program, '_decode_fast_message')
     MAP = ('attr', ('param', 'self'), 'source_to_iso_name')
